@@ -668,6 +668,22 @@ func CheckFixedPointLiteral(
 	report func(error),
 ) bool {
 
+	// The abstract fixed-point supertypes have no range of their own:
+	// a literal of such a type is represented as a Fix64
+	// (a non-negative `FixedPoint` literal as a UFix64),
+	// so its scale and range are checked against that type.
+
+	switch targetType {
+	case SignedFixedPointType:
+		targetType = Fix64Type
+	case FixedPointType:
+		if expression.Negative {
+			targetType = Fix64Type
+		} else {
+			targetType = UFix64Type
+		}
+	}
+
 	// The target type might just be an integer type,
 	// in which case only the integer range can be checked.
 
